@@ -35,6 +35,7 @@ BASE = [
     {"k": "sm", "mixtures": 3},
     {"k": "hamming"},
     {"k": "arc", "base": {"k": "rbf"}}, {"k": "arc", "base": {"k": "matern", "nu": 2.5}, "ard": True}, {"k": "arc", "base": {"k": "matern", "nu": 1.5}},
+    {"k": "arc", "base": {"k": "rbf"}, "ard": True, "delta": "positive"}, {"k": "arc", "base": {"k": "matern", "nu": 2.5}, "delta": "positive"},
     {"k": "cylindrical", "weights": 3, "base": {"k": "matern", "nu": 2.5}}, {"k": "cylindrical", "weights": 1, "base": {"k": "rbf"}},
     {"k": "spectral_delta", "deltas": 5}, {"k": "spectral_delta", "deltas": 2, "ard": True},
     {"k": "gskl"},
@@ -142,6 +143,8 @@ def _build(spec, d, pb):
         return (K.ScaleKernel(shared, batch_shape=bs) + shared) if k.endswith("sum") else (K.ScaleKernel(shared, batch_shape=bs) * shared)
     if k == "arc":
         kw = {"ard_num_dims": d} if spec.get("ard") else {}
+        if spec.get("delta") == "positive":
+            kw["delta_func"] = _delta_positive  # a coordinate is active only where it is positive
         return K.ArcKernel(util.build_kernel(spec["base"], 2 * d, pb), batch_shape=bs, **kw)
     if k == "cylindrical":
         return K.CylindricalKernel(spec["weights"], util.build_kernel(spec["base"], 1, pb), batch_shape=bs)
@@ -157,6 +160,10 @@ def _build(spec, d, pb):
     if k == "newton_girard":
         return K.NewtonGirardAdditiveKernel(K.RBFKernel(ard_num_dims=d), num_dims=d, max_degree=spec["max_degree"])
     return util.build_kernel(spec, d, pb)
+
+
+def _delta_positive(x):
+    return (x > 0).to(x.dtype)
 
 
 def _oracle(spec, kern, x1, x2):
@@ -325,6 +332,17 @@ def _run_case(case, ctx):
             if case["rel"] == "same":
                 one = kern(x1).to_dense()
                 ctx.close("kernel_value_one_arg", one, ref.expand(one.shape), tol, cls=cls)
+            if not case.get("f32") and case["regime"] == "random" and path == "nograd":
+                # the documented function of the CURRENT parameters: evaluate in evaluation mode, load other parameter
+                # values (no train() in between), evaluate again
+                kern.eval()
+                kern(x1, x2).to_dense()
+                sd = {k_: (v_ + 0.3 * util.randn(g, *v_.shape) if k_.rsplit(".", 1)[-1].startswith("raw_") and v_.dtype.is_floating_point and "angle" not in k_ else v_) for k_, v_ in kern.state_dict().items()}
+                kern.load_state_dict(sd)
+                got2 = kern(x1, x2).to_dense()
+                ref2 = _oracle(spec, kern, x1.detach(), x2.detach())
+                ctx.close("kernel_value_after_load_state_dict", got2, ref2.expand(got2.shape) if ref2.numel() != got2.numel() else ref2, tol, cls=cls + ":reloaded")
+                kern.train()
             if spec["k"] in LDB and not spec.get("ard") and d > 1:
                 # documented Kernel.__call__ option: the last input dimension becomes a batch dimension, i.e. one kernel
                 # matrix per input column (what the additive / product structure kernels are built from)
